@@ -7,7 +7,7 @@
     spec/BlockTrace.tla, every atomic on dbpd_atomic_flags / dbpd_performed / dbpd_queue and the private
     group's leave matched word by word, all Block.tla invariants evaluated in every state of the accepted behaviour.
 (V1) API oracles in the driver (the property's statements on the recorded total order), crash (70), hang (71)."""
-import os, json, collections, shutil
+import os, re, json, collections, shutil, time
 from concurrent.futures import ThreadPoolExecutor
 from vlib import *
 
@@ -297,13 +297,16 @@ def _judge_rejection(v, res):
 
 def _run_one(job):
     drv, tr, s, perturb, execs, i = job
+    t0 = time.time()
     rc, out, err = sh([drv, tr, str(s), str(perturb), str(execs)], timeout=600)
+    t1 = time.time()
     res = {"rc": rc, "err": err, "tr": tr, "seed": s, "i": i, "val": None, "val2": None}
     if os.path.exists(tr) and rc in (0, 2, 70, 71):
         nt = count_threads(tr)
         res["val"] = validate_trace(TSPEC, TCFG, tr, nthreads=nt, metaname="c19tr%d" % i, timeout=900)
         if rc == 0 and not res["val"].accepted:
             res["val2"] = validate_trace(TSPEC, TCFG, tr, nthreads=nt, metaname="c19tr%db" % i, timeout=900)
+    res["t_drv"], res["t_val"] = t1 - t0, time.time() - t1
     return res
 
 
@@ -352,11 +355,16 @@ def _trace_collect(v, results):
         v.traces += 1
         v.states += r.distinct
         v.transitions += r.generated
+        if "MO_DRIFT" in r.out and not any("memory_order" in d for d in v.drift):
+            v.drift.append("memory_order argument differs from the transcription (informational on TSO): "
+                           + re.findall(r'<<"MO_DRIFT".*>>', r.out)[0])
         _stats(tr, stats)
         if len(v.samples) < 2:
             v.samples.append({"trace": os.path.basename(tr), "records": r.tracelen,
                               "excerpt": open(tr).read().splitlines()[0:14]})
     v.notes["recorded_executions"] = dict(sorted(stats.items()))
+    v.notes["driver_wall_s"] = round(sum(x.get("t_drv", 0) for x in results), 1)
+    v.notes["trace_validation_wall_s"] = round(sum(x.get("t_val", 0) for x in results), 1)
     log("  traces: %d validated, %d executions" % (v.traces, stats.get("executions", 0)))
 
 
